@@ -959,7 +959,7 @@ impl ConcRunner<'_> {
                     .history
                     .iter()
                     .rev()
-                    .find(|c| c.tid == tid && c.ret.is_none())
+                    .find(|c| c.tid == tid)
                     .map(|c| format!("{:?}", c.call));
                 j.report(Violation::new(
                     "C21",
@@ -985,7 +985,7 @@ impl ConcRunner<'_> {
                     .history
                     .iter()
                     .rev()
-                    .find(|c| c.tid == tid && c.ret.is_none())
+                    .find(|c| c.tid == tid)
                     .map(|c| format!("{:?}", c.call));
                 j.report(Violation::new(
                     "C21",
@@ -1113,6 +1113,85 @@ impl ConcRunner<'_> {
                         }
                         _ => {}
                     }
+                }
+            }
+            if self.props.has(15) && !self.props.has(10) && cfg.kind != ClassKind::Custom {
+                // C15 epilogue (sequential, no drain: a drain would wipe out what a race left in
+                // the slots): every tree in turn is emptied (all held blocks in it freed without
+                // a slot), taken offline if the tree array shows it unreserved and entirely free,
+                // and then one base frame is requested through every slot of every class and
+                // without a slot: none may come from the offline tree.
+                'trees: for t in 0..cfg.trees() {
+                    if model.offline.contains(&t) {
+                        continue;
+                    }
+                    let lo = t * TREE_FRAMES;
+                    let hi = (lo + TREE_FRAMES).min(cfg.frames);
+                    let mine: Vec<Block> = crash.ledger.held.values().copied().filter(|b| b.frame >= lo && b.frame < hi).collect();
+                    if mine.len() > 64 {
+                        continue;
+                    }
+                    for b in &mine {
+                        let call = Call::Put { frame: b.frame, order: b.order, class: 0, slot: None };
+                        if !matches!(exec(&alloc, &call), Outcome::Ok) {
+                            break 'trees;
+                        }
+                        model.apply_put(b);
+                    }
+                    let snap = masked(|| guarded(|| tree_snapshot(&alloc, cfg.trees()))).unwrap_or_default();
+                    let Some(&(_, free, reserved)) = snap.get(t) else { break };
+                    if reserved || free != hi - lo {
+                        continue;
+                    }
+                    let off = Call::Change { id: Some(t), mclass: None, mfree: hi - lo, class: None, op: 2 };
+                    if !matches!(exec(&alloc, &off), Outcome::Ok) {
+                        j.report(Violation::new(
+                            "C15",
+                            "offline-of-free-tree-failed",
+                            format!("after the concurrent run: {off:?} failed although tree {t} is unreserved and entirely free"),
+                        ));
+                        break;
+                    }
+                    res.stats.offline_ok += 1;
+                    let mut requests: Vec<(u8, Option<usize>)> = Vec::new();
+                    for (c, n) in cfg.slots.iter().enumerate() {
+                        requests.push((c as u8, None));
+                        for s in 0..*n {
+                            requests.push((c as u8, Some(s)));
+                        }
+                    }
+                    for (class, slot) in requests {
+                        let call = Call::Get { target: None, order: 0, class, slot };
+                        match exec(&alloc, &call) {
+                            Outcome::GetOk { frame, .. } if frame >= lo && frame < hi => {
+                                j.report(Violation::new(
+                                    "C15",
+                                    "get-from-offline-tree",
+                                    format!("after the concurrent run: tree {t} emptied and taken offline, then {call:?} returned frame {frame} of it"),
+                                ));
+                                break 'trees;
+                            }
+                            Outcome::GetOk { frame, .. } => {
+                                // give it back at once (not through the slot)
+                                let back = Call::Put { frame, order: 0, class, slot: None };
+                                if !matches!(exec(&alloc, &back), Outcome::Ok) {
+                                    break 'trees;
+                                }
+                            }
+                            Outcome::Panic { .. } | Outcome::Aborted => break 'trees,
+                            _ => {}
+                        }
+                    }
+                    let on = Call::Change { id: Some(t), mclass: None, mfree: 0, class: None, op: 1 };
+                    if !matches!(exec(&alloc, &on), Outcome::Ok) {
+                        j.report(Violation::new(
+                            "C15",
+                            "online-of-own-offline-tree-failed",
+                            format!("after the concurrent run: {on:?} failed for the tree taken offline just before"),
+                        ));
+                        break;
+                    }
+                    res.stats.online_ok += 1;
                 }
             }
         }
@@ -1249,7 +1328,53 @@ pub fn gen_case(rng: &mut Rng, kind: &str, o: &GenOpts) -> ConcCase {
                 });
             }
             let same_slot = rng.chance(1, 2);
+            if cfg.frames >= HUGE_FRAMES && rng.chance(1, 5) {
+                // directed variant: the first rows of the first huge frame are taken by a
+                // multi-row block, one thread asks for another multi-row block (it lands in a
+                // later chunk of the same bitfield and sets its rows one CAS at a time), the
+                // other one asks for a small block by number somewhere in the first eight rows
+                directed = true;
+                setup.clear();
+                deals.clear();
+                let (class, _) = gen_class_slot(rng, &cfg, true);
+                setup.push(Call::Get {
+                    target: None,
+                    order: rng.range(7, 8),
+                    class,
+                    slot: None,
+                });
+                let (class, slot) = gen_class_slot(rng, &cfg, same_slot);
+                programs[0].push(SOp::Get {
+                    order: rng.range(7, 8),
+                    class,
+                    slot,
+                    target: None,
+                });
+                let (class, slot) = gen_class_slot(rng, &cfg, same_slot);
+                let order = *rng.pick(&[0usize, 0, 0, 1, 3, 5, 6]);
+                let f = ((rng.below(8) * 64 + rng.below(64)) >> order) << order;
+                programs[1].push(SOp::Get {
+                    order,
+                    class,
+                    slot,
+                    target: Some(f),
+                });
+                for p in programs.iter_mut() {
+                    if rng.chance(1, 3) {
+                        let (class, slot) = gen_class_slot(rng, &cfg, same_slot);
+                        p.push(SOp::Get {
+                            order: *rng.pick(&small_orders),
+                            class,
+                            slot,
+                            target: None,
+                        });
+                    }
+                }
+            }
             for p in programs.iter_mut() {
+                if directed {
+                    break;
+                }
                 for _ in 0..rng.range(1, 4) {
                     let (class, slot) = gen_class_slot(rng, &cfg, same_slot);
                     if rng.chance(3, 4) {
@@ -1258,8 +1383,15 @@ pub fn gen_case(rng: &mut Rng, kind: &str, o: &GenOpts) -> ConcCase {
                         // (where the untargeted ones of the other threads land)
                         let target = if rng.chance(1, 4) {
                             let blocks = (cfg.frames >> order).max(1);
-                            let near = if rng.chance(1, 2) { 8 } else { blocks };
-                            Some(rng.below(blocks.min(near)) << order)
+                            let f = match rng.below(3) {
+                                // one of the first blocks of this order
+                                0 => rng.below(blocks.min(8)) << order,
+                                // somewhere in one of the first rows (the multi-row requests of
+                                // the other threads work on these rows one CAS at a time)
+                                1 => ((rng.below(8) * 64 + rng.below(64)) >> order) << order,
+                                _ => rng.below(blocks) << order,
+                            };
+                            Some(if f + (1 << order) <= cfg.frames { f } else { 0 })
                         } else {
                             None
                         };
